@@ -412,6 +412,7 @@ func runC16(r *Run) error {
 		"with the C01/C02/C03 oracles after every epoch; single-species histories compared organism by organism with the sequential executor; " +
 		"race detector soak of the same generator in a -race twin; non-trivial = history had >= 2 species (so >= 2 concurrent goroutines) at some epoch, or a single-species comparison of >= 1 epoch; distinct by seed"
 	c16CheckTable(r)
+	counterHammer(r, "C16")
 	// parallel histories
 	n := r.N(60, 1500)
 	for i := 0; i < n; i++ {
